@@ -56,7 +56,13 @@ type server struct {
 	nCorrupt    atomic.Int64 // frames of the client that did not decrypt to a valid frame
 	// splitEvery > 0: every splitEvery-th packet with a body is written in two pieces with a pause of splitMs in between;
 	// the cut position cycles through the regions of a frame (size prefix after 1, 2, 3 bytes, nonce, payload, checksum)
-	authMode   bool
+	authMode bool
+	// eager: the handshake acknowledgement is followed at once by an unsolicited packet (pong / unknown id / other, in turn):
+	// 1 = both in ONE write, 2 = two writes without a pause
+	eager  int
+	nEager int
+	// stallFor: the next connection attempt is accepted and its handshake read, but the acknowledgement is held back that long
+	stallFor   time.Duration
 	splitOn    atomic.Bool
 	splitEvery int
 	splitMs    int
@@ -121,13 +127,54 @@ func (sv *server) serve(c *adnlsrv.Conn, port string) {
 		c.Close()
 		return
 	}
+	sv.mu.Lock()
+	stall := sv.stallFor
+	sv.stallFor = 0
+	sv.mu.Unlock()
+	if stall > 0 {
+		sv.rec.emit(map[string]any{"k": "srv.stall", "port": port, "ms": int(stall / time.Millisecond)})
+		time.Sleep(stall)
+	}
 	l := &slink{c: c, port: port}
 	l.mu.Lock()
 	sv.mu.Lock()
 	sv.links = append(sv.links, l)
+	eager := sv.eager
+	sv.nEager++
+	turn := sv.nEager
 	sv.mu.Unlock()
 	sv.rec.emit(map[string]any{"k": "srv.up", "port": port})
-	err := c.SendPacket(nil)
+	var err error
+	if eager == 0 {
+		err = c.SendPacket(nil)
+	} else {
+		var p []byte
+		m := map[string]any{"port": port}
+		if sv.authMode {
+			// before the authentication exchange nobody reads Connection.Responses() on a first connection: anything but a pong
+			// (consumed inside Connection.reader) would sit in front of the server's nonce for ever
+			turn = 0
+		}
+		switch turn % 3 {
+		case 0:
+			p, m["k"] = framePong(randomID()[:8]), "srv.pong"
+		case 1:
+			id := randomID()
+			data := sv.answerFor(id)
+			p, m["k"], m["h"] = frameAnswer(id, data), "srv.unk", hash8(data)
+		default:
+			p = append(binary.LittleEndian.AppendUint32(nil, magicOther), randomID()...)
+			m["k"], m["h"] = "srv.other", hash8(p)
+		}
+		_, err = c.Queue(nil)
+		if err == nil && eager == 2 {
+			_, err = c.Flush(-1)
+		}
+		sv.rec.emit(m)
+		if err == nil {
+			err = c.SendPacket(p) // eager == 1: the acknowledgement is still pending, both leave in one write
+		}
+	}
 	l.mu.Unlock()
 	sv.mu.Lock()
 	sv.cond.Broadcast()
